@@ -2,6 +2,7 @@
 //! writes one JSON result that run/check.py merges into verdicts and evidence.
 
 mod engine;
+mod enumr;
 mod gen;
 mod json;
 mod obs;
@@ -78,13 +79,27 @@ fn main() {
             let mut out = engine::RunOut::new();
             let seed = args.u64("seed", 0);
             let profile = args.str("profile", "mixed");
-            engine::run_profile(&profile, seed, args.u64("events", 10000), &mut out);
+            engine::run_profile(&profile, seed, args.u64("events", 10000), &mut out, args.u64("bare", 0) == 1);
             emit(&args, stats_json(&out).set("cmd", J::s("hist")).set("profile", J::s(&profile)).set("seed", J::u(seed)));
+        }
+        "enum_iter" | "enum_retain" => {
+            let mut out = engine::RunOut::new();
+            let p = enumr::EnumParams { max_n: args.u64("max-n", 4) as usize, extra_calls: args.u64("extra", 3) as usize, forget: args.u64("forget", 0) == 1,
+                shard: args.u64("shard", 0), nshards: args.u64("nshards", 1).max(1), seed: args.u64("seed", 0), bare: args.u64("bare", 0) == 1, markers: args.u64("markers", 0) == 1 };
+            let cases = if args.cmd == "enum_iter" {
+                let a = enumr::enum_iter(&p, &mut out);
+                a + enumr::random_iter(&p, args.u64("random", 0), args.u64("random-len", 60) as usize, &mut out)
+            } else {
+                let a = enumr::enum_retain(&p, &mut out);
+                enumr::random_retain(&p, args.u64("random", 0), args.u64("random-len", 60) as usize, &mut out);
+                a + args.u64("random", 0)
+            };
+            emit(&args, stats_json(&out).set("cmd", J::s(&args.cmd)).set("cases", J::u(cases)));
         }
         "selfcheck" => {
             // used by the driver to build (and smoke-test) a mode
             let mut out = engine::RunOut::new();
-            engine::run_profile("mixed", 1, 50, &mut out);
+            engine::run_profile("mixed", 1, 50, &mut out, false);
             emit(&args, stats_json(&out).set("cmd", J::s("selfcheck")));
         }
         "replay" => {
